@@ -341,21 +341,31 @@ Definition F_C03_iprefix_case (m : matcher) (t : table) : bool :=
 (* 3, before bc98e3c (refutation theorem only): some host key has a metacharacter other than '*' *)
 Definition F_C03_metachar_order_unrepaired (globoff : bool) (t : table) : bool :=
   negb globoff && existsb (fun k => negb (star_only k)) (keys t).
-(* 3, what is left after bc98e3c (exact hosts now come first): AMONG PATTERNS a '?' that
-      directly precedes a pattern's literal host suffix still sorts above the host-name
-      byte of a longer suffix it competes with when that byte is <= '?' (digits, '-', '.',
-      ':').  [low_before s t]: s ends with t and the byte before that suffix is <= '?'. *)
-Definition qmark_tail (hp : str) : bool :=
-  match skipn (length (lit_tail hp)) (rev hp) with m :: _ => m =? ch_qm | [] => false end.
-Definition low_before (s t : str) : bool :=
-  has_suffix s t &&
-  match nth_error (rev s) (length t) with Some c => c <=? ch_qm | None => false end.
+(* 3, what is left after bc98e3c (exact hosts now come first): AMONG PATTERNS.  Two host
+      keys k1, k2 both match the host, both are patterns, k2 has the longer literal host
+      suffix, and the metacharacter m that directly precedes k1's literal suffix ('*' = 42 or
+      '?' = 63) is >= the host byte d that precedes that suffix in the host (the byte of k2's
+      longer suffix it is compared with in the reversed-name sort): then k1, the pattern with
+      the SHORTER suffix, is not sorted after k2.  d <= '?' are digits, '-', '.', ':' ...;
+      d <= '*' are the bytes 33..42: exclamation mark, double quote, # $ % & ' ( ) and '*'. *)
+Definition meta_before_tail (hp : str) : option N := nth_error (rev hp) (length (lit_tail hp)).
+Definition byte_before (s t : str) : option N :=
+  if has_suffix s t then nth_error (rev s) (length t) else None.
+Definition low_pair (tls : bool) (nh k1 k2 : str) : bool :=
+  let nk1 := normalize_host k1 tls in
+  let nk2 := normalize_host k2 tls in
+  let t1 := lit_tail (host_part nk1) in
+  let t2 := lit_tail (host_part nk2) in
+  has_meta nk1 && has_meta nk2 && glob_match nk1 nh && glob_match nk2 nh
+  && Nat.ltb (length t1) (length t2)
+  && match meta_before_tail (host_part nk1) with
+     | Some m => match byte_before nh t1 with Some d => d <=? m | None => false end
+                 || match byte_before (host_part nh) t1 with Some d => d <=? m | None => false end
+     | None => false
+     end.
 Definition F_C03_metachar_order (globoff tls : bool) (t : table) (host : str) : bool :=
   negb globoff &&
-  existsb (fun k => let hp := host_part (normalize_host k tls) in
-                    let nh := normalize_host host tls in
-                    qmark_tail hp && (low_before nh (lit_tail hp) || low_before (host_part nh) (lit_tail hp)))
-          (keys t).
+  existsb (fun k1 => existsb (low_pair tls (normalize_host host tls) k1) (keys t)) (keys t).
 (* 4 (repaired by bc98e3c; no longer part of [region]): some wildcard key's literal host
       suffix is the whole (normalised) host name: the star matches the empty string *)
 Definition F_C03_empty_star (globoff tls : bool) (t : table) (host : str) : bool :=
@@ -366,15 +376,17 @@ Definition F_C03_empty_star (globoff tls : bool) (t : table) (host : str) : bool
       (ReverseHostPort applied twice dropped the colon) *)
 Definition F_C03_colon_key (t : table) : bool := existsb ends_with_colon (keys t).
 
-(* 6: gobwas/glob deviates from glob semantics on some host key or (glob matcher)
-      some route path of the table for this request *)
+(* 6: the route selected is one on whose host key, or (glob matcher) on whose path,
+      gobwas/glob deviates from glob semantics for this request (the deviations only ADD
+      matches, so nothing else of the table can change the outcome) *)
 Definition F_C03_gobwas_overlap (globoff tls : bool) (m : matcher) (t : table) (host uri : str) : bool :=
-  (negb globoff &&
-   existsb (fun k => gobwas_deviates (normalize_host k tls) (normalize_host host tls)) (keys t))
-  || match m with
-     | MGlob => existsb (fun c : cand => gobwas_deviates (snd (fst c)) uri) (all_routes t)
-     | _ => false
-     end.
+  match lookup t host tls uri m globoff with
+  | Some (k, p, _) =>
+      (negb globoff && negb (is_nil k)
+       && gobwas_deviates (normalize_host k tls) (normalize_host host tls))
+      || match m with MGlob => gobwas_deviates p uri | _ => false end
+  | None => false
+  end.
 
 (* 7 (introduced by bc98e3c, repaired by 1814501; no longer part of [region]): the normalised request host is empty (no Host header, or
       just the default port) and the table has host-less routes: the key "" glob-matches
